@@ -126,9 +126,23 @@ def _strategy_feat(shapes):
                 # objects with a past (a third of the cases each): the conditional is first built with another noise
                 # covariance, queried, and brought to the target with update_Sigma; p(x) is first handed to the conditional's
                 # transformations and then updated in place
-                "past": ({"Sigma0": draw(gen.spd(1, Dy, kappa=30.0))} if draw(st.sampled_from([False, False, True])) else None),
+                "past": _past(draw, kind, Dx, Dy, Dk),
                 "upd": _px_update(draw, Rx, Dx, px_diag) if draw(st.sampled_from([False, False, True])) else None}
     return s()
+
+
+def _past(draw, kind, Dx, Dy, Dk):
+    """None (two thirds), or the parameters the object is built with before it is brought to the target ones."""
+    which = draw(st.sampled_from([None, None, None, None, "Sigma", "kernels", "both"]))
+    if which is None:
+        return None
+    past = {}
+    if which in ("Sigma", "both"):
+        past["Sigma0"] = draw(gen.spd(1, Dy, kappa=30.0))
+    if which in ("kernels", "both"):
+        k0 = draw(gen.feature_params(kind, Dx, Dy, Dk))
+        past["kernels0"] = {k: k0[k] for k in (("mu", "length_scale") if kind == "lrbf" else ("W",))}
+    return past
 
 
 def _px_update(draw, Rx, Dx, px_diag):
@@ -342,7 +356,7 @@ def _nontrivial_het(case):
 SUBS = [
     Sub("feature", _pool_feat, _strategy_feat, _run_feat, _nontrivial_feat,
         lambda c: [f"kind={c['kind']}", f"Dx={c['Dx']}", f"Rx={c['Rx']}", f"Dk={'>16' if c['Dk'] > 16 else '<=5'}", "px=diag" if c.get("px_diag") else "px=full",
-                   "cond_past=update_Sigma" if c.get("past") else "cond_fresh", "px_past=update" if c.get("upd") else "px_fresh"],
+                   ("cond_past=" + "+".join(sorted(k.rstrip("0") for k in c["past"]))) if c.get("past") else "cond_fresh", "px_past=update" if c.get("upd") else "px_fresh"],
         examples={"quick": 50, "thorough": 300}, shards={"quick": 9, "thorough": 17}, rule="(Dk>=2 or Dx>=2) and overlap"),
     Sub("heteroscedastic", _pool_het, _strategy_het, _run_het, _nontrivial_het,
         lambda c: [f"kind={c['kind']}", f"Dx={c['Dx']}", f"Rx={c['Rx']}", "Da>Dy" if c["Da"] > c["Dy"] else "Da=Dy", "px=diag" if c.get("px_diag") else "px=full", "px_past=update" if c.get("upd") else "px_fresh"],
